@@ -96,8 +96,8 @@ func errEdgesOf(fn *ssa.Function, w *ssa.Call) [][2]*ssa.BasicBlock {
 		}
 		c, pol := core.StripNot(ifi.Cond, true)
 		x, neq, ok := errCmpNil(c)
-		if !ok {
-			continue
+		if !ok || !isErr(x.Type()) {
+			continue // (a nil test of another result of the same call, `resp != nil`, says nothing about its error)
 		}
 		match := false
 		for _, oc := range originCalls(x) {
@@ -131,6 +131,8 @@ func runC07(p *core.Prog, r *core.Report) {
 	// a manifest (and the tag written with it) is not published while a blob it shares with another
 	// image of the same copy is still in flight (shared with C03.R4)
 	c03R4(p, r, "C07.R9")
+	// the collector cannot run under a copy: the lock count of a running copy is never dropped with the bookkeeping entry (shared with C08.R2)
+	c08R2(p, r, "C07.R10")
 }
 
 // ---------------------------------------------------------------------------------------------
